@@ -536,6 +536,11 @@ def c17_streams(rng, tier, budget):
                 ps = "" if p is None else ":%d" % p
                 h = st.new(f"{sc}://{hst}{ps}/")
                 st.obs_all(h, C17_OBS)
+                # the routes that keep the authority as written and validate nothing at construction: the range check happens when a port view
+                # is first read (ValueError there), never "a port of 65536"
+                st.obs_all(st.new(f"{sc}://{hst}{ps}/", encoded=True), C17_OBS)
+                if sc in ("http", "x"):
+                    st.obs_all(st.build(scheme=sc, authority=f"u@{hst}{ps}", encoded=True), C17_OBS)
                 if p is None or 0 <= p:
                     st.obs_all(st.build(scheme=sc, host=hst.strip("[]"), port=p), C17_OBS)
             base = st.new(f"{sc}://h:1234/p")
@@ -623,7 +628,10 @@ def c18_streams(rng, tier, budget):
              "i❤.ws", "☃.net", "my_svc.bücher.de"]
     # deterministic matrix first: every host kind × userinfo × port, so that no kind depends on the random draw
     for hst in hosts:
-        for kw0 in ({}, {"user": "ü s"}, {"user": "u", "password": "p:w"}, {"port": 8080}, {"user": "a@b", "port": 80}):
+        # … and userinfo that is NOT stable under NFKC but contains no delimiter before or after it (ligature, combining accent, fullwidth
+        # letter, trade mark): the authority screen of the parser must treat the WRITTEN brackets of an IP-literal like the other written delimiters
+        for kw0 in ({}, {"user": "ü s"}, {"user": "u", "password": "p:w"}, {"port": 8080}, {"user": "a@b", "port": 80},
+                    {"user": "\ufb01e\u0301"}, {"user": "u", "password": "\uff21\u2122", "port": 8080}):
             kw = dict(scheme="http", host=hst, path="/p q", fragment="é")
             kw.update(kw0)
             u = st.build(**kw)
